@@ -126,7 +126,10 @@ def coverage(stms, opens, universe, consts):
 
 def pick_universes(src_stms, dst_stms, opens, consts, tier, extra_pos, want):
     scored = []
-    for u in candidate_universes(src_stms, tier, extra_pos):
+    cands = candidate_universes(src_stms, tier, extra_pos)
+    if tier == "quick":
+        cands = cands[:5]
+    for u in cands:
         ca, na = coverage(src_stms, opens, u, consts)
         cb, nb = coverage(dst_stms, opens, u, consts)
         if ca < 0:
@@ -160,6 +163,10 @@ def run_task(task):
         stms = astutil.parse(text)
     except RuntimeError as e:
         res.update(status="skip", reason="source does not parse: " + str(e)[:100])
+        return res
+    bad = astutil.symbolic_constants_in_arithmetic(stms, consts)
+    if bad:
+        res.update(status="skip", reason="source applies arithmetic to the symbolic constant(s) %s (outside every property: arithmetic on integers only)" % sorted(bad))
         return res
     extra_pos = dict(task.get("universe_pos") or {})
     lifted = []
@@ -228,6 +235,8 @@ def run_task(task):
     else:
         raise ValueError(mode)
     opens = sorted(voc_src) if task.get("open_all") else inp
+    if task.get("c04"):
+        return c04_task(task, res, text, stms, dst, dst_stms, r, inp, consts, tier, extra_pos, t0)
     res["V"] = sorted(V)
     res["one_to_one"] = task.get("one_to_one", False)
     res["costs"] = task.get("costs", True)
@@ -307,3 +316,52 @@ def syntactic_checks(src_stms, dst_stms, inp, outp, voc_src):
     if a != b:
         issues.append({"kind": "non-rule statements not passed through verbatim in order", "source": a[:5], "result": b[:5]})
     return {"issues": issues, "invented_heads": sorted(heads_dst - taken)}
+
+
+# --------------------------------------------------------------------------- C04: result valid, safe, printed form faithful
+def c04_task(task, res, text, stms, dst, dst_stms, r, inp, consts, tier, extra_pos, t0):
+    """(a) every returned AST is accepted by ProgramBuilder and the result grounds (AST path and text path) whenever
+    the source grounds; (b) str(parse(str(s))) == str(s); (c) AST path == text path for all instances (solver)"""
+    unis = pick_universes(stms, dst_stms, inp, consts, tier, extra_pos, 1)
+    if not unis:
+        res.update(status="skip", reason="source does not ground over any candidate universe (unsafe fragment?)")
+        return res
+    u, cov = unis[0]
+    problems = []
+    # (b) printed form is a fixpoint of parse/print
+    for s_ast, s_txt in zip(r["asts"], r["stms"]):
+        try:
+            back = [str(x) for x in astutil.parse(s_txt)][1:]  # the parser always emits an implicit `#program base.` first
+        except RuntimeError as e:
+            problems.append({"kind": "statement does not parse back", "stm": s_txt, "err": str(e)[:100]})
+            continue
+        if back != [s_txt]:
+            problems.append({"kind": "print/parse round trip changes the text", "stm": s_txt, "back": back[:3]})
+    # (a) acceptance + safety on both paths
+    for path, kw in (("ast", {"asts": r["asts"]}), ("text", {"text": dst})):
+        try:
+            ground(inputs=inp, universe=u, consts=consts, **kw)
+        except GroundError as e:
+            problems.append({"kind": f"result rejected by clingo on the {path} path", "err": str(e)[:300]})
+        except Exception as e:  # noqa
+            problems.append({"kind": f"ProgramBuilder rejected a statement on the {path} path", "err": f"{type(e).__name__}: {e}"[:300]})
+    res["c04_problems"] = problems
+    if problems:
+        res.update(status="violation", reason=problems[0]["kind"], counterexample={"instance": "", "replay": {"status": "differ", "detail": problems[:3]}})
+        res["kind"] = "c04"
+        return res
+    V = astutil.program_sigs(dst_stms) | set(inp)
+    res["V"] = sorted(V)
+    out = tv.check_pair(dst, dst, inp, V, u, consts=consts, costs=True, one_to_one=True, timeout=task.get("timeout", 20 if tier == "quick" else 90),
+                        dst_asts=r["asts"], open_preds=inp)
+    out["coverage(src_hit,src_rules,dst_hit,dst_rules)"] = cov
+    res["decided"] = [out]
+    res["status"] = out["status"]
+    res["reason"] = out.get("reason")
+    if out["status"] == "violation":
+        res["counterexample"] = out.get("counterexample")
+        res["kind"] = "c04"
+    res["source_program"] = text
+    res["source"] = dst
+    res["wall_s"] = round(time.time() - t0, 3)
+    return res
